@@ -485,6 +485,39 @@ def rule_g3(ctx, F):
 from rsrules import some_ret_points
 
 
+def rule_g4(ctx, F):
+    """G4: the conflict matrix is filled for every *ordered* pair of tokens.  `does_conflict(i, j)` is directional
+    (token i takes strings away from token j), so the loops around the call in merge_compatible_states both run over all
+    terminals; a triangular loop with mirroring loses the conflicts that exist in one direction only, and two states that
+    differ in such a look-ahead get merged."""
+    fn = find_fn(ctx, F, "Minimizer::merge_compatible_states", "G4")
+    if not fn:
+        return
+    calls = calls_named(fn, "does_conflict")
+    key = "merge_compatible_states:conflict-matrix-full"
+    if len(calls) != 1:
+        ctx.bad("G4", key, "expected one does_conflict call in merge_compatible_states, found %d" % len(calls))
+        return
+    pt, c, d = calls[0]
+    idx = [strip(a) for a in c["a"][1:3]]
+    names = [a.get("name") for a in idx if a.get("k") == "ref"]
+    # the ranges the two index variables iterate over
+    ranges = []
+    for p2, e in fn.points():
+        for x in own_walk(e):
+            if x.get("k") == "agg" and str(x.get("adt") or "").endswith("Range") and pt[0] in reachable_blocks(fn, p2[0]):
+                f = {y["f"]: rsrules.deep_text(fn, y["e"], user=False) for y in x.get("fields", [])}
+                if f.get("start") == "0":
+                    ranges.append((p2, f.get("end")))
+    ends = sorted({e for _, e in ranges})
+    tri = [e for e in ends if e in names]
+    if len(names) == 2 and len(ranges) >= 2 and not tri and len(ends) == 1:
+        ctx.ok("G4", key, "does_conflict(%s, %s) is evaluated inside two loops that both run over 0..%s" % (names[0], names[1], ends[0]), sample={"site": fn.loc(pt)})
+    else:
+        ctx.bad("G4", key, "the loops around does_conflict(%s) in merge_compatible_states run over %s: the directional conflict test is not made for every ordered pair, so a conflict that exists "
+                "in one direction only is lost and states differing in that look-ahead are merged" % (", ".join(str(n) for n in names), ", ".join("0..%s" % e for e in ends) or "?"), {"site": fn.loc(pt)})
+
+
 class FoldAll(Monitor):
     """Every item a particular `for` loop yields is folded into the accumulator before the loop asks for the next one.
     m = (in_iteration, folded); only the loop whose `match next()` switch is `switch_bid` is tracked."""
@@ -592,6 +625,7 @@ def run(ctx):
     rule_u1(ctx, F)
     rule_f1(ctx, F)
     rule_g3(ctx, F)
+    rule_g4(ctx, F)
     return ctx.finish(
         "Determinism scan and merge-licence gates over rustc MIR of tree-sitter-generate: no iteration over RandomState-hashed containers, no clock/thread/pid/env/random source, no pointer→integer casts; "
         "states_conflict vets every entry it consumes, token_conflicts/entries_conflict say `no conflict` only after all their tests, merging only under OptLevel::MergeStates. "
